@@ -72,14 +72,19 @@ pub struct GatedBehavior<B> {
     inner: B,
     gate: Gate,
     side: Side,
+    /// every message the real interface hands to the behaviour, per peer index, in order (C21 oracle)
+    recv_log: MsgLog,
 }
+
+/// (peer index, protocol, rendered message) in order of sending / receiving
+pub type MsgLog = Arc<Mutex<Vec<(usize, usize, String)>>>;
 pub struct GatedInterface<I> {
     inner: I,
     gate: Gate,
     side: Side,
 }
 
-impl<B: Behavior> Stream for GatedBehavior<B> {
+impl<B: Behavior<Message = AnyMessage>> Stream for GatedBehavior<B> {
     type Item = BehaviorOutput<GatedBehavior<B>>;
     fn poll_next(mut self: Pin<&mut Self>, cx: &mut Context<'_>) -> Poll<Option<Self::Item>> {
         let this = &mut *self;
@@ -106,17 +111,24 @@ impl<B: Behavior> Stream for GatedBehavior<B> {
         }
     }
 }
-impl<B: Behavior> FusedStream for GatedBehavior<B> {
+impl<B: Behavior<Message = AnyMessage>> FusedStream for GatedBehavior<B> {
     fn is_terminated(&self) -> bool {
         false
     }
 }
-impl<B: Behavior> Behavior for GatedBehavior<B> {
+impl<B: Behavior<Message = AnyMessage>> Behavior for GatedBehavior<B> {
     type Event = B::Event;
     type Command = B::Command;
     type PeerState = B::PeerState;
     type Message = B::Message;
     fn handle_io(&mut self, event: InterfaceEvent<Self::Message>) {
+        if let InterfaceEvent::Recv(pid, msgs) = &event {
+            let idx = (pid.port as usize).saturating_sub(3000);
+            let mut l = self.recv_log.lock().unwrap();
+            for m in msgs {
+                l.push((idx, kind(m).0, render2(m)));
+            }
+        }
         self.inner.handle_io(event)
     }
     fn execute(&mut self, cmd: Self::Command) {
@@ -245,7 +257,83 @@ fn conformant_reply(ch: &mut Choices, proto: usize, s: u8, req: &Option<AnyMessa
 type Verdict = Arc<Mutex<Option<Violation>>>;
 
 /// one simulated remote node serving one connection
-async fn node(sh: Sh, idx: usize, npeers: u64, mut rd: pallas_network2::bearer::BearerReadHalf, mut wr: pallas_network2::bearer::BearerWriteHalf, verdict: Verdict) {
+/// What the simulated node does beyond answering: `cuts` re-segments every reply at seeded offsets
+/// (and may slip another protocol's reply between two pieces); `sent` logs every reply it wrote completely.
+#[derive(Clone)]
+pub struct NodeOpts {
+    pub cuts: bool,
+    pub sent: MsgLog,
+    /// connections opened so far, per peer index
+    pub conns: Arc<Mutex<HashMap<usize, u64>>>,
+}
+
+/// writes one message as raw segments cut at seeded offsets; returns false when the connection is gone
+async fn write_cut(sh: &Sh, wr: &mut pallas_network2::bearer::BearerWriteHalf, m: AnyMessage, ts: &mut u32, between: Option<AnyMessage>, idx: usize, sent: &MsgLog) -> bool {
+    use pallas_network2::Message as _;
+    let entry = (idx, kind(&m).0, render2(&m));
+    let (channel, chunks) = m.into_chunks();
+    let mut between = between;
+    for chunk in chunks {
+        let n = chunk.len();
+        let mut cuts: Vec<usize> = vec![];
+        if n > 1 {
+            match draw(sh, "node.cut.style", 4) {
+                0 => {}
+                1 => cuts.push(1 + draw(sh, "node.cut.at", n as u64 - 1) as usize),
+                2 => cuts.extend([1, n - 1]),
+                _ => {
+                    for _ in 0..(1 + draw(sh, "node.cut.k", 4)) {
+                        cuts.push(1 + draw(sh, "node.cut.at", n as u64 - 1) as usize);
+                    }
+                }
+            }
+        }
+        cuts.sort();
+        cuts.dedup();
+        inc(sh, "probe.node_reply_cut_points");
+        let mut prev = 0;
+        cuts.push(n);
+        for c in cuts {
+            if c <= prev {
+                continue;
+            }
+            *ts += 1;
+            if wr.write_segment(channel | p::PROTOCOL_SERVER, *ts, &chunk[prev..c]).await.is_err() {
+                return false;
+            }
+            prev = c;
+            if c < n {
+                // between two pieces: a pause (the pool re-arms its read with the partial map) and
+                // possibly a whole message of another protocol
+                if let Some(b) = between.take() {
+                    inc(sh, "probe.node_reply_interleaved");
+                    *ts += 1;
+                    let e2 = (idx, kind(&b).0, render2(&b));
+                    if wr.write_message(b, *ts, p::PROTOCOL_SERVER).await.is_err() {
+                        return false;
+                    }
+                    sent.lock().unwrap().push(e2);
+                }
+                if chance(sh, "node.cut.pause", 1, 2) {
+                    let us = 1 + draw(sh, "node.cut.pause.us", 5_000);
+                    tokio::time::sleep(Duration::from_micros(us)).await;
+                }
+            }
+        }
+    }
+    sent.lock().unwrap().push(entry);
+    if let Some(b) = between.take() {
+        *ts += 1;
+        let e2 = (idx, kind(&b).0, render2(&b));
+        if wr.write_message(b, *ts, p::PROTOCOL_SERVER).await.is_err() {
+            return false;
+        }
+        sent.lock().unwrap().push(e2);
+    }
+    true
+}
+
+async fn node(sh: Sh, idx: usize, npeers: u64, mut rd: pallas_network2::bearer::BearerReadHalf, mut wr: pallas_network2::bearer::BearerWriteHalf, verdict: Verdict, opts: NodeOpts) {
     let mut spec = [0u8; NPROTO];
     let mut last_req: [Option<AnyMessage>; NPROTO] = Default::default();
     let mut bf_left = 0u64;
@@ -299,9 +387,33 @@ async fn node(sh: Sh, idx: usize, npeers: u64, mut rd: pallas_network2::bearer::
             }
             ev(&sh, "node.reply", &[idx as u64, pp as u64, kk as u64]);
             inc(&sh, "probe.node_replies");
-            ts += 1;
-            if wr.write_message(r, ts, p::PROTOCOL_SERVER).await.is_err() {
-                return;
+            if opts.cuts {
+                // a second reply, of another protocol, to slip between two pieces of this one
+                let mut between = None;
+                let others: Vec<usize> = (0..NPROTO).filter(|q| *q != TS && *q != pp && SPECS[*q].agency(spec[*q]) == Agency::Server).collect();
+                if !others.is_empty() && chance(&sh, "node.interleave", 1, 2) {
+                    let q = others[draw(&sh, "node.interleave.proto", others.len() as u64) as usize];
+                    let r2 = {
+                        let mut g = sh.lock().unwrap();
+                        conformant_reply(&mut g.ch, q, spec[q], &last_req[q], &mut bf_left, npeers)
+                    };
+                    if let Some(r2) = r2 {
+                        let (p2, k2) = kind(&r2);
+                        if let Some(n) = SPECS[p2].next(spec[p2], k2) {
+                            spec[p2] = n;
+                        }
+                        ev(&sh, "node.reply", &[idx as u64, p2 as u64, k2 as u64]);
+                        between = Some(r2);
+                    }
+                }
+                if !write_cut(&sh, &mut wr, r, &mut ts, between, idx, &opts.sent).await {
+                    return;
+                }
+            } else {
+                ts += 1;
+                if wr.write_message(r, ts, p::PROTOCOL_SERVER).await.is_err() {
+                    return;
+                }
             }
             if chance(&sh, "node.hangup", 1, 200) {
                 inc(&sh, "fault.node_hangs_up");
@@ -314,6 +426,9 @@ async fn node(sh: Sh, idx: usize, npeers: u64, mut rd: pallas_network2::bearer::
 pub struct RealManager {
     pub name: &'static str,
     pub faults: bool,
+    /// C21: the nodes re-segment their replies and the messages the behaviour is handed are compared
+    /// with the messages the nodes wrote
+    pub cuts: bool,
 }
 
 impl Scenario for RealManager {
@@ -325,6 +440,7 @@ impl Scenario for RealManager {
         let steps = cx.ch.range("steps", 1, 40);
         let leios = cx.ch.chance("leios", 1, 2);
         let faults = self.faults;
+        let cuts = self.cuts;
         let pcfg = PipeCfg {
             stall: (cx.ch.draw("cfg.stall", 3), 8),
             short: (cx.ch.draw("cfg.short", 4), 4),
@@ -341,6 +457,9 @@ impl Scenario for RealManager {
         run_sim(cx, |sh| async move {
             let verdict: Verdict = Arc::new(Mutex::new(None));
             // ---- hook H3: outbound connections get in-memory bearers and a simulated node behind them
+            let nopts = NodeOpts { cuts, sent: Arc::new(Mutex::new(vec![])), conns: Arc::new(Mutex::new(HashMap::new())) };
+            let recv_log: MsgLog = Arc::new(Mutex::new(vec![]));
+            let nopts_c = nopts.clone();
             let (sh_c, verdict_c, pcfg_c) = (sh.clone(), verdict.clone(), pcfg.clone());
             pallas_network2::interface::verif_hook::set_connector(Some(Box::new(move |pid: &PeerId| {
                 let idx = (pid.port as usize).saturating_sub(3000);
@@ -351,7 +470,8 @@ impl Scenario for RealManager {
                 let (w_i2n, r_i2n) = pipe("i2n", &sh_c, &pcfg_c);
                 let (w_n2i, r_n2i) = pipe("n2i", &sh_c, &pcfg_c);
                 let (rd, wr) = bearer2(r_i2n, w_n2i).into_split();
-                tokio::spawn(node(sh_c.clone(), idx, npeers, rd, wr, verdict_c.clone()));
+                *nopts_c.conns.lock().unwrap().entry(idx).or_insert(0) += 1;
+                tokio::spawn(node(sh_c.clone(), idx, npeers, rd, wr, verdict_c.clone(), nopts_c.clone()));
                 inc(&sh_c, "probe.connections_opened");
                 Some(Ok(bearer2(r_n2i, w_i2n)))
             })));
@@ -361,7 +481,7 @@ impl Scenario for RealManager {
                 handshake: pallas_network2::behavior::HandshakeBehavior::new(pallas_network2::behavior::Config { supported_version: table }),
                 ..Default::default()
             };
-            let mut manager = Manager::new(GatedInterface { inner: TcpInterface::<AnyMessage>::new(), gate: gate.clone(), side: Side { polls: 0, epoch: 0 } }, GatedBehavior { inner: beh, gate: gate.clone(), side: Side { polls: 0, epoch: 0 } });
+            let mut manager = Manager::new(GatedInterface { inner: TcpInterface::<AnyMessage>::new(), gate: gate.clone(), side: Side { polls: 0, epoch: 0 } }, GatedBehavior { inner: beh, gate: gate.clone(), side: Side { polls: 0, epoch: 0 }, recv_log: recv_log.clone() });
             let quiet = Duration::from_millis(60);
             let mut result = Ok(());
             'run: for _ in 0..steps {
@@ -411,6 +531,40 @@ impl Scenario for RealManager {
             }
             if let Some(v) = verdict.lock().unwrap().take() {
                 result = Err(v);
+            }
+            if cuts && result.is_ok() {
+                // drain: let the manager run until it has been quiet for a long stretch, so that every
+                // reply a node wrote completely has reached the behaviour
+                for _ in 0..4000 {
+                    arm(&gate, BOTH);
+                    if tokio::time::timeout(Duration::from_millis(400), manager.poll_next()).await.is_err() {
+                        break;
+                    }
+                }
+                let sent = nopts.sent.lock().unwrap().clone();
+                let got = recv_log.lock().unwrap().clone();
+                let conns = nopts.conns.lock().unwrap().clone();
+                'cmp: for idx in 0..npeers as usize {
+                    for proto in 0..NPROTO {
+                        let s: Vec<&String> = sent.iter().filter(|e| e.0 == idx && e.1 == proto).map(|e| &e.2).collect();
+                        let g: Vec<&String> = got.iter().filter(|e| e.0 == idx && e.1 == proto).map(|e| &e.2).collect();
+                        inc(&sh, "probe.modeb_streams_compared");
+                        // in order, nothing invented, nothing twice: what arrived is a subsequence of what was written
+                        let mut it = s.iter();
+                        if let Some(bad) = g.iter().position(|x| !it.any(|y| y == x)) {
+                            result = Err(Violation::new("wire", format!("modeb-{}:not-what-was-sent", SPECS[proto].name), format!("peer {idx} {}: message #{bad} handed to the behaviour ({}) is not the next one the node wrote ({} written, {} received)", SPECS[proto].name, g[bad], s.len(), g.len())));
+                            break 'cmp;
+                        }
+                        // a connection that never went away delivers everything that was written completely
+                        if conns.get(&idx).copied().unwrap_or(0) == 1 && !faults && g.len() != s.len() {
+                            result = Err(Violation::new("wire", format!("modeb-{}:written-but-never-delivered", SPECS[proto].name), format!("peer {idx} {}: the node wrote {} messages completely, the behaviour was handed {} although the connection stayed up and the manager went quiet", SPECS[proto].name, s.len(), g.len())));
+                            break 'cmp;
+                        }
+                        if !g.is_empty() {
+                            inc(&sh, "probe.modeb_messages_compared");
+                        }
+                    }
+                }
             }
             pallas_network2::interface::verif_hook::set_connector(None);
             drop(manager);
